@@ -127,7 +127,13 @@ func (r *recorder) callback(ev, kind string, i int, tmpl []string, n *Node, arg 
 	seen := other
 	self := addrAt(r.root, r.schema, dp)
 	isPrimTest := n.K == "prim" && ev == "test"
-	if isPrimTest {
+	if ev == "pre" {
+		// a Preprocess function over strings is given the input string itself
+		if _, ok := arg.(string); ok {
+			class = "val"
+		}
+		seen = 0
+	} else if isPrimTest {
 		// primitive TestFuncs get the value itself
 		if arg != nil && reflect.TypeOf(arg) == goType(n) {
 			class = "val"
